@@ -141,7 +141,15 @@ UNI_NAMES = [
 # "①", "㈱" (NEC row 13) have more than one cp932 encoding; Python's encoder and encoding_rs pick the same one.
 # U+7E8A has two as well and they pick different ones (ED40 / FA5C), so it is given in the form encoding_rs
 # produces.  Names that do not survive decode+encode are reported by the harness (`unrepresentable`), not hidden.
-RAW_NAMES = [b"\xfa\x5c", b"\xfa\x5c.bin"]
+RAW_NAMES = [b"\xfa\x5c", b"\xfa\x5c.bin",
+             # row-1 symbols whose Unicode mapping differs between the CP932 table (encoding_rs) and JIS X 0208: 81 60 = U+FF5E
+             # FULLWIDTH TILDE (JIS: U+301C WAVE DASH - seeded C15-8 "translated" it on decode), 81 7C = U+FF0D, 81 5F = U+FF3C,
+             # 81 61 = U+2225, 81 91 / 81 92 = U+FFE0 / U+FFE1, 81 5C = U+2015; each must come back as the SAME name
+             b"\x83\x58\x83\x65\x81\x5b\x83\x57\x82\x50\x81\x60\x82\x52.cmp", b"\x81\x60", b"a\x81\x60b", b"\x81\x60\x81\x60.bin",
+             b"\x81\x7c", b"m\x81\x7c1.bin", b"\x81\x5f", b"\x81\x61x", b"\x81\x91\x81\x92", b"\x81\x5c.bin",
+             # half-width katakana pairs that are also well-formed UTF-8 (D0 BD = U+043D, D1 A1 = U+0461, C3 BD = U+00FD): a codec
+             # that sniffs the encoding would decode them as UTF-8
+             b"\xd0\xbd", b"\xd0\xbd\xd1\xa1.bin", b"\xc3\xbd\xc4", b"\xd0\xbd\xd0\xbd\xd0\xbd"]
 
 
 def encode_name(s):
